@@ -22,6 +22,9 @@
 
   The lexer state is the *remaining input* (`buf[pos..]`): `parse_cmap` only moves forward, except that
   `parse_with_lexer_ctx` restores the position when it fails — the model then simply keeps the old suffix.
+  The lexer fragment is the one of /repo main after the repairs of D1 (form feed is white space), D3 (a comment
+  ends at CR as well as at LF) and `00d132b` (NUL is white space inside a hexadecimal string); D2 (`+` sign) only
+  touches `elemUnmodelled`; `Lexer::seek_substr` (repaired by the C08 package) is not used by `parse_cmap`.
   The model describes the code after the `fix:` commit for defect D39 (`write_cmap` separated the strings of
   the range form with `", "`, which `parse_cmap` cannot read; now a single space).
 
@@ -43,7 +46,11 @@ inductive R (α : Type) where
   | oof : R α
 deriving Repr, DecidableEq, Inhabited
 
-def isWs (b : UInt8) : Bool := b == 0 || b == 32 || b == 13 || b == 10 || b == 9
+/-- `is_whitespace`: NUL, space, CR, LF, tab, form feed -/
+def isWs (b : UInt8) : Bool := b == 0 || b == 32 || b == 13 || b == 10 || b == 9 || b == 12
+
+/-- a comment ends at LF or CR -/
+def isEol (b : UInt8) : Bool := b == 10 || b == 13
 
 /-- `b"()<>[]{}/%".contains(b)` -/
 def isDelim (b : UInt8) : Bool :=
@@ -52,14 +59,14 @@ def isDelim (b : UInt8) : Bool :=
 def isRegular (b : UInt8) : Bool := !isWs b && !isDelim b
 
 /-- the start of `next_word`: EOF check, `skip_whitespace`, then the `while buf[pos] == b'%'` loop: skip
-    past the next `\n` if there is one (otherwise only past the `%`!), skip white space again.  `inC`: inside
-    a comment that is known to end with `\n`.  `none` = `Err(EOF)`. -/
+    past the next `\n` or `\r` if there is one (otherwise only past the `%`!), skip white space again.  `inC`:
+    inside a comment that is known to end.  `none` = `Err(EOF)`. -/
 def scan : Bool → Bytes → Option Bytes
   | _, [] => none
-  | true, b :: r => if b == 10 then scan false r else scan true r
+  | true, b :: r => if isEol b then scan false r else scan true r
   | false, b :: r =>
     if isWs b then scan false r
-    else if b == 37 then (if r.contains 10 then scan true r else scan false r)
+    else if b == 37 then (if r.any isEol then scan true r else scan false r)
     else some (b :: r)
 
 /-- `Lexer::next_word`: lexeme and remaining input -/
@@ -82,8 +89,8 @@ def nib (c : UInt8) : Option Nat :=
   else if 97 ≤ c && c ≤ 102 then some (c.toNat - 87)
   else none
 
-/-- white space inside a hexadecimal string: space, tab, LF, CR, FF -/
-def isHexWs (b : UInt8) : Bool := b == 32 || b == 9 || b == 10 || b == 13 || b == 12
+/-- white space inside a hexadecimal string (`next_non_whitespace_char`): space, tab, LF, CR, FF, NUL -/
+def isHexWs (b : UInt8) : Bool := b == 32 || b == 9 || b == 10 || b == 13 || b == 12 || b == 0
 
 /-- the `HexStringLexer` iterator, input right after `<`: decoded bytes and the input after `>`.
     `hi`: a pending high nibble (an odd final digit counts as `h0`). -/
